@@ -26,9 +26,15 @@ def roundtrip_rules(run, db):
                     'shift': Tup([dom.sym('sx') if sh[0] else Const(0), dom.sym('sy') if sh[1] else Const(0)]),
                     'method': Const('mdft'), 'return_more': Const(False)}
         res = [p for p in it.run(f, kwargs=kw) if p.outcome == 'return']
-        if len(res) != 1:
-            raise AnalysisError('to_fpm_and_back: expected one path, got %d' % len(res))
-        v = res[0].value
+        if not res:
+            raise AnalysisError('to_fpm_and_back: no returning path')
+        for pth in res:
+            roundtrip_path(run, f, dom, pth, sh)
+
+
+def roundtrip_path(run, f, dom, pth, sh):
+        R = dom.R
+        v = pth.value
         ok = isinstance(v, Prod2) and isinstance(v.arr, Shaped) and v.arr.origin is not None and v.arr.origin[0] == 'Mult'
         stage1 = mask = None
         if ok:
@@ -36,9 +42,9 @@ def roundtrip_rules(run, db):
             stage1, mask = (a, b) if isinstance(a, Prod2) else (b, a)
             ok = isinstance(stage1, Prod2) and isinstance(mask, Shaped) and mask.label == 'fpm' and isinstance(stage1.arr, Shaped) and stage1.arr.label == 'ary'
         run.check(ok, 'C05.roundtrip', f.qual, 'structure', 'unfocus(focus(w) * fpm) with the same field and mask',
-                  'to_fpm_and_back is not unfocus_fixed_sampling(focus_fixed_sampling(w) * fpm): %r' % (v,), f.loc())
+                  'on the path %s to_fpm_and_back is not unfocus_fixed_sampling(focus_fixed_sampling(w) * fpm) but returns %r' % (pth.conds, v), f.loc())
         if not ok:
-            continue
+            return
         k1 = -2 * Rat(R.atom('pi')) * Rat(R.I) * Rat(R.atom('dx')) * Rat(R.atom('fpm_dx')) / (Rat(R.atom('wavelength')) * Rat(R.atom('efl')))
         sx, sy = sh
         fdx = Rat(R.atom('fpm_dx'))
@@ -81,6 +87,10 @@ def roundtrip_rules(run, db):
                 run.check(got_in == want_in and got_out == want_out, 'C05.roundtrip', f.qual, 'return-trip origins',
                           'return trip grids are centred', 'return trip coordinate offsets %s / %s, expected %s / %s'
                           % (got_in.key(), got_out.key(), want_in.key(), want_out.key()), f.loc())
+
+
+def roundtrip_static(run, db):
+    f = db.func(P + 'to_fpm_and_back')
     # method passed through to both stages
     calls = [n for n in walk_no_nested(f.node) if isinstance(n, ast.Call) and ast.unparse(n.func) in ('focus_fixed_sampling', 'unfocus_fixed_sampling')]
     for c in calls:
@@ -105,9 +115,15 @@ def babinet_rules(run, db):
             return {'efl': dom.sym('efl'), 'lyot': dom.array('lyot', 'n0', 'n1') if lyot else Const(None), 'fpm': dom.array('fpm', 'M0', 'M1'),
                     'fpm_dx': dom.sym('fpm_dx'), 'method': Const('mdft'), 'return_more': Const(False)}
         res = [p for p in it.run(f, kwargs=kw, self_obj=mkself) if p.outcome == 'return']
-        if len(res) != 1:
-            raise AnalysisError('babinet: expected one path, got %d' % len(res))
-        v = res[0].value
+        if not res:
+            raise AnalysisError('babinet: no returning path')
+        for pth in res:
+          v = pth.value
+          babinet_path(run, f, dom, v, lyot)
+
+
+def babinet_path(run, f, dom, v, lyot):
+    if True:
         data = v.attrs.get('data') if isinstance(v, Obj) else None
         ok = isinstance(data, Shaped) and data.origin is not None
         d = data
@@ -140,11 +156,15 @@ def check(run, db, tier):
                'and per-axis arguments transposes the output (the two axes obey the same formula)')
     run.rule('C05.axisQ', 'fixed-sampling kernels: frequency per axis == 2 pi dx_in dx_out/(lambda f) (no array length), output grid t - M//2 - shift/dx_out, both engines, both directions, all parity classes')
     run.rule('C05.roundtrip', 'to_fpm_and_back == unfocus(focus(w)*fpm) with mutually inverse kernels; the return trip reads the mask plane on the shifted grid')
+    run.rule('C05.grid', 'coordinate vectors shifted in place are fresh per call (results do not depend on earlier shifted calls)')
     run.rule('C05.babinet', 'babinet == [lyot *](field - to_fpm_and_back(field, 1 - fpm))')
     quick_par = None if tier == 'thorough' else [dict(zip(['n0', 'n1', 'M0', 'M1'], b)) for b in ((0, 0, 0, 0), (1, 1, 1, 1), (0, 1, 1, 0), (1, 0, 0, 1))]
     run.group(FS.run_fixed, run, db, 'C05.axisQ', 'focus_fixed_sampling', -1, quick_par)
     run.group(FS.run_fixed, run, db, 'C05.axisQ', 'unfocus_fixed_sampling', +1, quick_par)
     run.group(roundtrip_rules, run, db)
+    run.group(roundtrip_static, run, db)
+    from .c01 import fresh_rules
+    run.group(fresh_rules, run, db, 'C05.grid')
     run.group(babinet_rules, run, db)
     run.require_instances('C05.axisQ', 200)
     run.require_instances('C05.roundtrip', 20)
